@@ -40,7 +40,9 @@ def shape_of(text: str) -> str:
     ops = re.sub(r"0x[0-9A-Fa-f]+", "#", ops)
     ops = re.sub(r"\((BL|BH|CL|CH|DL|DH|SI\d?|DI\d?|IOCS_WS\d?|BP|PX|PY|AMC|KOL|KOH|KIL|EOL|EOH|EIL|EIH|UCR|USR|RXD|TXD|IMR|ISR|SCR|LCC|SSR)\)",
                  "(NAME)", ops)
-    ops = re.sub(r"\b(BA|IL|IH|A|B|I|X|Y|U|S|F|IMR)\b", "R", ops)
+    ops = re.sub(r"\b(X|Y|U|S)\b", "R20", ops)
+    ops = re.sub(r"\b(BA|I)\b", "R16", ops)
+    ops = re.sub(r"\b(IL|IH|A|B|F|IMR)\b", "R8", ops)
     return f"{mn}/{ops.replace(' ', '')}" if ops else mn
 
 
@@ -143,7 +145,7 @@ def _shard(args):
     return {"n": n, "ok": ok, "texts": texts, "vb": vb}
 
 
-SWEEP_QUICK = [0x00, 0x01, 0x0F, 0x10, 0x7F, 0x80, 0x81, 0xEC, 0xFF]
+SWEEP_QUICK = [0x00, 0x01, 0x7F, 0x80, 0xFF]
 
 
 def _shard_sweep(args):
@@ -154,12 +156,17 @@ def _shard_sweep(args):
     n = ok = texts = 0
     seen: set = set()
     for pre, op in pairs:
+        classes = set()
         for d in shapes.shapes_for(pre, op, tail):
             ins, _ = drv.py_decode(d, ADDR)
             if ins is None:
                 continue
+            cls = (ins.length(), shape_of(asm_text(ins)))
+            if cls in classes:          # one representative per rendered operand shape (register width classes, modes, offsets)
+                continue
+            classes.add(cls)
             k = (1 if pre is None else 2)
-            for pos in range(k, ins.length()):
+            for pos in range(k + 1, ins.length()):        # the selector byte itself is enumerated structurally
                 for v in values:
                     dd = bytearray(d)
                     dd[pos] = v
@@ -168,7 +175,6 @@ def _shard_sweep(args):
                     if r in ("ok", "bad"):
                         texts += 1
                     ok += r == "ok"
-            break
     return {"n": n, "ok": ok, "texts": texts, "vb": vb}
 
 
